@@ -1461,6 +1461,11 @@ class Interp:
             return Lst(join_all([elem_of(a) for a in args])) if args else TOP
         if tail in ("Graph", "DiGraph") and dotted.startswith("networkx"):
             return Obj(tail)
+        # an array made of a list of labels still holds labels (np.array(sorted(hg.isolated_nodes())))
+        if dotted.startswith("numpy") and tail in ("array", "asarray", "sort", "unique", "fromiter") and isinstance(a0, (Lst, St, Seq)):
+            ek = elem_of(a0)
+            if isinstance(strip_none(ek), Atom):
+                return Lst(ek)
         return TOP
 
     # ================================================================ truth / narrowing
